@@ -268,7 +268,7 @@ func c02(tier string) {
 		"literal membership is judged only where the value set is non-empty (containsAll does not apply to empty sets by design)",
 		"the reference denotation is the harness's reading of the statement of C02",
 	}
-	nCases := ctx.N(160, 4000)
+	nCases := ctx.N(160, 2000)
 	const K = 16
 	if !ctx.IsShard() {
 		ctx.RunShards()
